@@ -1156,7 +1156,7 @@ pub fn tmp_file(name: &str) -> std::path::PathBuf {
 
 /// runs the real `adf-bdd` binary (path in ADF_BDD_BIN); returns exit code (-1: killed) and stdout
 pub fn run_cli(args: &[&str]) -> (i32, String) {
-    let bin = std::env::var("ADF_BDD_BIN").unwrap_or_else(|_| "/verif/build/target/repo/release/adf-bdd".to_string());
+    let bin = std::env::var("ADF_BDD_BIN").unwrap_or_else(|_| "/verif/build/target/repo/debug/adf-bdd".to_string());
     match std::process::Command::new(bin).args(args).env_remove("RUST_LOG").stderr(std::process::Stdio::null()).output() {
         Ok(o) => (o.status.code().unwrap_or(-1), String::from_utf8_lossy(&o.stdout).to_string()),
         Err(_) => (-2, String::new()),
